@@ -65,6 +65,7 @@ def gen_postings(items):
 
     items.append(lambda: D('TERMINATED', const('src/docset.rs', 'TERMINATED'), 'src/docset.rs'))
     items.append(lambda: D('POSITION_GAP', const('src/postings/postings_writer.rs', 'POSITION_GAP'), 'src/postings/postings_writer.rs'))
+    items.append(lambda: D('POSITION_END', const('src/postings/recorder.rs', 'POSITION_END'), 'src/postings/recorder.rs'))
     items.append(lambda: D('MAX_TOKEN_LEN', const('src/tokenizer/mod.rs', 'MAX_TOKEN_LEN'), 'src/tokenizer/mod.rs'))
     items.append(lambda: D('TERMINFO_BLOCK_LEN', const('src/termdict/fst_termdict/term_info_store.rs', 'BLOCK_LEN'), 'term_info_store.rs'))
     items.append(lambda: D('VINT_STOP_BIT', const('common/src/vint.rs', 'STOP_BIT'), 'common/src/vint.rs'))
